@@ -574,10 +574,10 @@ static inline SyntaxKind recognize7(const char* s, const ParseOptions& opts)
 static inline SyntaxKind recognize8(const char* s, const ParseOptions& opts)
 {
     if (s[0] == '_') {
-        if (s[1] == '_'
-                && opts.languageExtensions().isEnabled_extGNU_AlternateKeywords()) {
+        if (s[1] == '_') {
             if (s[2] == 'i') {
-                if (s[3] == 'n') {
+                if (s[3] == 'n'
+                        && opts.languageExtensions().isEnabled_extGNU_AlternateKeywords()) {
                     if (s[4] == 'l') {
                         if (s[5] == 'i') {
                             if (s[6] == 'n') {
@@ -615,7 +615,8 @@ static inline SyntaxKind recognize8(const char* s, const ParseOptions& opts)
                     }
                 }
             }
-            else if (s[2] == 't') {
+            else if (s[2] == 't'
+                     && opts.languageExtensions().isEnabled_extGNU_AlternateKeywords()) {
                 if (s[3] == 'y') {
                     if (s[4] == 'p') {
                         if (s[5] == 'e') {
